@@ -94,6 +94,14 @@ theorem reclamped_value_in_new_range (cfg' : Config) (hb : boundsOk cfg' = true)
 theorem value_comparison_total (a b : GVal) : (goEq a b).isSome = true := by
   cases a <;> cases b <;> simp [goEq]
 
+/-- … hence a characteristic WITHOUT a format (what `NewCharacteristic`, `NewInt`, `NewFloat`, … yield until the
+    application sets one) and without a typed remote-update callback can be sent anything, any number of times, through
+    every operation: no step of any operation sequence panics. (Its values are not typed or clamped — that is the price of
+    having no format, and outside C12; that a controller cannot take the handler down with it is C13's concern.) -/
+theorem formatless_never_panics (cfg : Config) (hf : cfg.format = .other) (ht : cfg.tcb = none) (ops : List Op) :
+    ∀ so ∈ trace (start cfg) ops, so.2.outcome = .ok :=
+  trace_plain ops (start cfg) ⟨hf, ht⟩
+
 theorem value_comparison_unfixed_refuted :
     goEqOld (.comp (.arr [])) (.comp (.arr [])) = none ∧ goEq (.comp (.arr [])) (.comp (.arr [])) = some true := by
   decide
